@@ -18,8 +18,12 @@ pub struct SimSource {
     pos: usize,
     /// number of `read_samples` calls so far
     pub reads: usize,
-    /// interleaved samples handed to the `Fill` by successful fills, in order
-    pub handed: Vec<i32>,
+    /// the samples handed to the `Fill` by successful fills, in order: their number (scalars) and the
+    /// MD5 of their little-endian serialisation at the byte-rounded width, computed independently of
+    /// the library as the samples leave the source
+    pub handed_len: usize,
+    handed_hash: md5::Md5,
+    synthetic: bool,
     /// inter-channel samples reported as read
     pub reported: usize,
     /// names of the faults that actually fired
@@ -33,6 +37,7 @@ pub struct SimSource {
     errored: bool,
     tmp: Vec<i32>,
     bytebuf: Vec<u8>,
+    hashbuf: Vec<u8>,
 }
 
 pub fn make_source_error(reason: u8, k: usize) -> SourceError {
@@ -42,10 +47,15 @@ pub fn make_source_error(reason: u8, k: usize) -> SourceError {
         2 => SourceError::by_reason(SourceErrorReason::InvalidBuffer),
         3 => SourceError::by_reason(SourceErrorReason::InvalidFormat),
         4 => SourceError::by_reason(SourceErrorReason::UnsupportedFormat),
-        _ => SourceError::from_io_error(std::io::Error::new(
+        5 => SourceError::from_io_error(std::io::Error::new(
             std::io::ErrorKind::Other,
             format!("sim-fault@read{k}"),
         )),
+        // the transient-looking kinds a reader meets: EINTR, EAGAIN, a short file, a timeout
+        6 => SourceError::from_io_error(std::io::Error::from(std::io::ErrorKind::Interrupted)),
+        7 => SourceError::from_io_error(std::io::Error::from(std::io::ErrorKind::WouldBlock)),
+        8 => SourceError::from_io_error(std::io::Error::from(std::io::ErrorKind::UnexpectedEof)),
+        _ => SourceError::from_io_error(std::io::Error::from(std::io::ErrorKind::TimedOut)),
     }
 }
 
@@ -81,7 +91,9 @@ impl SimSource {
             eof_style: w.eof_style,
             pos: 0,
             reads: 0,
-            handed: vec![],
+            handed_len: 0,
+            handed_hash: <md5::Md5 as md5::Digest>::new(),
+            synthetic: w.synthetic_silence,
             reported: 0,
             fired: vec![],
             reads_after_error: 0,
@@ -91,11 +103,18 @@ impl SimSource {
             errored: false,
             tmp: vec![],
             bytebuf: vec![],
+            hashbuf: vec![],
         }
     }
 
     pub fn bytes_per_sample(&self) -> usize {
         (self.bits + 7) / 8
+    }
+
+    /// MD5 of everything handed over so far (see `handed_len`).
+    pub fn handed_md5(&self) -> [u8; 16] {
+        use md5::Digest;
+        self.handed_hash.clone().finalize().into()
     }
 
     /// Replaces the read plan (lengths and representation of every read).
@@ -149,8 +168,12 @@ impl Source for SimSource {
         let n = self.plan[k].len.min(block_size);
         let mut as_bytes = self.plan[k].bytes;
         self.tmp.clear();
-        self.tmp
-            .extend_from_slice(&self.data[self.pos * ch..(self.pos + n) * ch]);
+        if self.synthetic {
+            self.tmp.resize(n * ch, 0);
+        } else {
+            self.tmp
+                .extend_from_slice(&self.data[self.pos * ch..(self.pos + n) * ch]);
+        }
         let mut wrong_bps: Option<usize> = None;
         let mut reported = n;
         for f in &self.faults {
@@ -220,7 +243,20 @@ impl Source for SimSource {
                 dest.fill_interleaved(&self.tmp)?;
             }
         }
-        self.handed.extend_from_slice(&self.tmp);
+        {
+            use md5::Digest;
+            let hb = self.bytes_per_sample();
+            if self.synthetic && self.tmp.iter().all(|v| *v == 0) {
+                self.hashbuf.clear();
+                self.hashbuf.resize(self.tmp.len() * hb, 0);
+            } else {
+                let mut hbuf = std::mem::take(&mut self.hashbuf);
+                to_le_bytes(&self.tmp, hb, &mut hbuf);
+                self.hashbuf = hbuf;
+            }
+            self.handed_hash.update(&self.hashbuf);
+            self.handed_len += self.tmp.len();
+        }
         self.pos += n;
         self.reported += reported;
         if let Some(e) = err_after {
